@@ -63,7 +63,7 @@ def impl(c):
         branch_length_array=np.array(c["bl"], dtype=float))
 
 
-def compare(c, resp):
+def compare(c, resp, got=None):
     """returns (ok, model dict, impl dict, note)"""
     r = parse_resp(resp)
     if "params" not in r:
@@ -73,7 +73,7 @@ def compare(c, resp):
         k, v = tok.rsplit(":", 1)
         model[dec(k)] = v
     try:
-        got = impl(c)
+        got = impl(c) if got is None else got
     except Exception as e:
         return False, model, f"{type(e).__name__}: {e}", "implementation raised (the property demands zero instead of a division error)"
     bad = []
@@ -251,7 +251,119 @@ def s08_generated(ctx):
     return res
 
 
-STREAMS = [s08_weights, s08_params, s08_generated]
+def network_steps(rng, area, kind):
+    """a history of analyses of ONE caller's trace frame: an overview of everything (no truncation) and the target area, in varying order"""
+    from shapely.geometry import box
+
+    overview = {"label": "overview", "area": box(-420.0, -400.0, 400.0, 410.0), "truncate": False, "circular": False, "topology": False}
+    target = {"label": "target", "area": area, "truncate": True, "circular": kind == "circle", "topology": True}
+    return rng.choice([[overview, target], [target, overview, target], [overview, overview, target], [target, target]])
+
+
+def judge_network(net, step, t):
+    """everything the property says about what a Network reports, evaluated on the Network's OWN traces, counts and area.
+    returns (problems, facts needed for the parameter request)"""
+    import numpy as np
+    from shapely.geometry import Point
+
+    problems = []
+    geoms = list(net.trace_gdf.geometry.values)
+    own_len = [float(g.length) for g in geoms]
+    boundaries = [g.boundary for g in net.area_gdf.geometry.values]
+    ends_on = []
+    for g in geoms:
+        k = 0
+        for e in (g.coords[0], g.coords[-1]):
+            k += int(any(Point(e[:2]).distance(b) < t for b in boundaries))
+        ends_on.append(k if step["circular"] else 0)
+    reported = [int(v) for v in np.asarray(net.trace_intersects_target_area_boundary)]
+    if reported != ends_on:
+        problems.append(f"boundary-intersection counts {reported} are not the numbers of ends on the boundary {ends_on}")
+    rule = {0: 1, 1: 2, 2: 0}
+    if step["circular"]:
+        weights = [int(v) for v in np.asarray(net.trace_data.length_boundary_weights)]
+        if weights != [rule[k] for k in ends_on]:
+            problems.append(f"length weights {weights} are not 1/2/0 for the counts {ends_on}")
+    plain = [float(v) for v in np.asarray(net.trace_length_array_non_weighted)]
+    if len(plain) != len(own_len) or any(abs(a - b) > 1e-9 * max(1.0, b) for a, b in zip(plain, own_len)):
+        problems.append(f"non-weighted trace lengths {plain[:6]} are not the lengths of the network's own traces {own_len[:6]}")
+    weighted = [float(v) for v in np.asarray(net.trace_length_array)]
+    want_w = [l * (rule[k] if step["circular"] else 1) for l, k in zip(own_len, ends_on)]
+    if len(weighted) != len(want_w) or any(abs(a - b) > 1e-9 * max(1.0, b) for a, b in zip(weighted, want_w)):
+        problems.append(f"weighted trace lengths {weighted[:6]} are not own length x weight {want_w[:6]}")
+    facts = None
+    if step["topology"]:
+        nc = net.node_counts
+        if step["circular"] and int(nc["E"]) != sum(ends_on):
+            problems.append(f"E-node count {nc['E']} is not the sum of the trace end counts {sum(ends_on)}")
+        facts = dict(X=int(nc["X"]), Y=int(nc["Y"]), I=int(nc["I"]), E=int(nc["E"]), tl=own_len,
+                     bl=[float(g.length) for g in net.branch_gdf.geometry.values],
+                     area=float(sum(g.area for g in net.area_gdf.geometry.values)), circ=bool(step["circular"]))
+    return problems, facts
+
+
+def run_history(ctx, traces, area, kind, steps, t, res, stream, case):
+    """build the Networks of a history on the same caller's frame; judge each"""
+    import geopandas as gpd
+
+    from fractopo import Network
+    from harness.mapgen import to_float_lines
+
+    frame = gpd.GeoDataFrame({"uid": [f"u{i}" for i in range(len(traces))]}, geometry=to_float_lines(traces))
+    for si, step in enumerate(steps):
+        where = f"step {si + 1} ({step['label']})"
+        try:
+            net = Network(trace_gdf=frame, area_gdf=gpd.GeoDataFrame(geometry=[step["area"]]), name=f"h{si}", determine_branches_nodes=step["topology"],
+                          truncate_traces=step["truncate"], circular_target_area=step["circular"], snap_threshold=t)
+            problems, facts = judge_network(net, step, t)
+            params = net.parameters if facts is not None else None
+        except Exception as e:
+            res.disagreements.append(Disagreement(stream, dict(case, failing_step=si), None, f"{type(e).__name__}: {str(e)[:300]}", True, f"{where}: raised"))
+            return
+        if problems:
+            res.disagreements.append(Disagreement(stream, dict(case, failing_step=si), "the definitions evaluated on the network's own traces", problems, True,
+                                                  f"{where}: " + "; ".join(problems)[:600]))
+            return
+        if facts is not None:
+            ok, model, got, note = compare(facts, ctx.driver.batch([request(facts)])[0], got=params)
+            if ok is None:
+                res.skipped["model_rejected"] = res.skipped.get("model_rejected", 0) + 1
+            elif not ok:
+                res.disagreements.append(Disagreement(stream, dict(case, failing_step=si, facts=facts), model, got, True,
+                                                      f"{where}: Network.parameters differ from the definitions evaluated on its own counts, lengths and area: {note}"[:900]))
+                return
+
+
+def s08_network(ctx):
+    """end to end: HISTORIES of Networks built from one caller's trace frame (overview without truncation / the target area), every reported
+    count, weight, length and parameter against the definitions evaluated on that Network's own traces, node counts and area"""
+    import_fractopo()
+    from harness.common import area_rows, lines as wlines
+    from harness.mapgen import valid_maps
+
+    res = StreamResult("S08-network", rule="valid maps (Lean oracle) in box and circular areas x histories of 2-3 Network(...) calls on the SAME caller's frame (overview box "
+                       "without truncation / the target area with truncation, orders overview-target, target-overview-target, overview-overview-target, "
+                       "target-target); per Network: boundary-intersection counts = ends on the boundary (circular) or 0, weights 1/2/0, plain and weighted "
+                       "lengths = own lengths (x weight), E = sum of end counts, and Network.parameters = Spec.NetIn.param (Lean) on its own node counts, trace "
+                       "and branch lengths and area; non-trivial = circular target area with a trace cut by the boundary")
+    rng = rng_for(ctx.seed, "S08n")
+    t = 0.01
+    maps, _ = valid_maps(ctx, rng, budget(ctx.tier, 40, 500), Fraction(t), area_kinds=("box", "circle"))
+    for traces, area, kind, ar in maps:
+        res.evaluations += 1
+        steps = network_steps(rng, area, kind)
+        order = "-".join(s_["label"] for s_ in steps)
+        res.distribution[order] = res.distribution.get(order, 0) + 1
+        res.distribution[kind] = res.distribution.get(kind, 0) + 1
+        if kind == "circle" and any(c == "E" for _, c in ar.nodes):
+            res.nontrivial += 1
+        case = {"stream": "S08-network", "t": t, "traces": wlines(traces), "areas": area_rows([area]), "area_kind": kind, "order": order}
+        run_history(ctx, traces, area, kind, steps, t, res, "S08-network", case)
+    res.samples = [{"maps": len(maps)}]
+    return res
+
+
+STREAMS = [s08_weights, s08_params, s08_generated, s08_network]
 
 
 def replay(ctx, stream, case):
@@ -259,6 +371,23 @@ def replay(ctx, stream, case):
         r = s08_generated(ctx)
         return r.disagreements[0] if r.disagreements else None
     import_fractopo()
+    if stream == "S08-network":
+        from shapely.geometry import Polygon
+
+        from harness.common import parse_lines
+
+        traces = parse_lines(case["traces"])
+        rings = parse_lines(case["areas"])
+        area = Polygon([(float(x), float(y)) for x, y in rings[0]], [[(float(x), float(y)) for x, y in r] for r in rings[1:]])
+        labels = case["order"].split("-")
+        kind = case["area_kind"]
+        from shapely.geometry import box
+
+        mk = {"overview": {"label": "overview", "area": box(-420.0, -400.0, 400.0, 410.0), "truncate": False, "circular": False, "topology": False},
+              "target": {"label": "target", "area": area, "truncate": True, "circular": kind == "circle", "topology": True}}
+        res = StreamResult("replay")
+        run_history(ctx, traces, area, kind, [mk[l] for l in labels], case["t"], res, stream, {k: v for k, v in case.items() if k not in ("failing_step", "facts")})
+        return res.disagreements[0] if res.disagreements else None
     if stream == "S08a-params":
         c = case["case"]
         ok, model, got, note = compare(c, ctx.driver.batch([request(c)])[0])
